@@ -321,6 +321,7 @@ theorem shape_connStep (cfg : Cfg) (fresh : List Char) (x : Conn) (ev : Ev) :
     | bind res => exact Or.inl (stanzaCase _)
     | session => exact Or.inl (stanzaCase _)
     | stanza st => exact Or.inl (stanzaCase _)
+    | sameRead e => exact Or.inl (quiet_idle x)
 
 
 
@@ -389,6 +390,7 @@ theorem connStep_emit (cfg : Cfg) (fresh : List Char) (x : Conn) (ev : Ev) (st :
     | session =>
       have h1 := (clientGate_outs_emit _ _ _ (gate_outs _ _ _ h).1).1
       simp at h1
+    | sameRead e => simp [idle] at h
     | stanza st0 =>
       have hg := gate_outs _ _ _ h
       have hcg := clientGate_outs_emit _ _ _ hg.1
@@ -422,14 +424,77 @@ theorem connStep_emit (cfg : Cfg) (fresh : List Char) (x : Conn) (ev : Ev) (st :
 
 
 
+/-! ### elements that arrive in the same read as the previous one (`Ev.sameRead`) -/
+
+def Ev.isSame : Ev → Bool
+  | .sameRead _ => true
+  | _ => false
+
+/-- no operation of the script is a `sameRead`: every element is read on its own -/
+def NoSameRead (ops : List (Nat × Ev)) : Prop := ∀ op ∈ ops, op.2.isSame = false
+
+theorem connStepAny_eq (cfg : Cfg) (fresh : List Char) (x : Conn) (ev : Ev) (h : ev.isSame = false) :
+    connStepAny cfg fresh x ev = connStep cfg fresh x ev := by
+  cases ev <;> first | rfl | (simp [Ev.isSame] at h)
+
+theorem mem_filter_drain {o : COut} {l : List COut} (h : o ∈ l.filter drainKeep) : o ∈ l :=
+  (List.mem_filter.mp h).1
+
+theorem shape_connStepAny (cfg : Cfg) (fresh : List Char) (x : Conn) (ev : Ev) :
+    Quiet x (connStepAny cfg fresh x ev) ∨ AuthHead (connStepAny cfg fresh x ev) ∨ x.jid ≠ [] := by
+  cases ev with
+  | sameRead e =>
+    simp only [connStepAny]
+    split
+    · rcases shape_connStep cfg fresh { x with closed := false } e.strip with hq | ha | hj
+      · exact Or.inl ⟨hq.1, fun o ho => hq.2 o (mem_filter_drain ho)⟩
+      · obtain ⟨j, tl, ho, htl⟩ := ha
+        refine Or.inr (Or.inl ⟨j, tl.filter drainKeep, ?_, fun o ho' => htl o (mem_filter_drain ho')⟩)
+        simp only [ho, List.filter, drainKeep]
+      · exact Or.inr (Or.inr hj)
+    · exact shape_connStep cfg fresh x e.strip
+  | _ => exact shape_connStep cfg fresh x _
+
+/-- **from stamping, locally, for every kind of step** -/
+theorem connStepAny_emit (cfg : Cfg) (fresh : List Char) (x : Conn) (ev : Ev) (st : Stanza)
+    (h : COut.emit st ∈ (connStepAny cfg fresh x ev).outs) :
+    (st.sender = x.jid ∨ st.sender = bareOf x.jid) ∧ (connStepAny cfg fresh x ev).conn.jid = x.jid := by
+  by_cases hs : ev.isSame = false
+  · rw [connStepAny_eq cfg fresh x ev hs] at h ⊢
+    have hem := connStep_emit cfg fresh x ev st h
+    exact ⟨hem.1, by rw [hem.2]⟩
+  · cases ev with
+    | sameRead e =>
+      simp only [connStepAny] at h ⊢
+      cases hc : x.closed with
+      | true =>
+        simp only [hc, if_true] at h ⊢
+        have hem := connStep_emit cfg fresh { x with closed := false } e.strip st (mem_filter_drain h)
+        exact ⟨hem.1, by rw [hem.2]⟩
+      | false =>
+        simp only [hc, Bool.false_eq_true, if_false] at h ⊢
+        have hem := connStep_emit cfg fresh x e.strip st h
+        exact ⟨hem.1, by rw [hem.2]⟩
+    | _ => simp [Ev.isSame] at hs
+
+theorem connStepAny_emit_jid_ne (cfg : Cfg) (fresh : List Char) (x : Conn) (ev : Ev) (st : Stanza)
+    (h : COut.emit st ∈ (connStepAny cfg fresh x ev).outs) : x.jid ≠ [] := by
+  rcases shape_connStepAny cfg fresh x ev with hq | ha | hj
+  · exact absurd h (not_emit_of_quiet hq st)
+  · exact absurd h (not_emit_of_authHead ha st)
+  · exact hj
+
 /-! ### from connection outputs to server outputs -/
 
-theorem writeTo_mem (s : Server) (found : List Nat) (mk : Nat → Out) (o : Out)
-    (h : o ∈ writeTo s found mk) : ∃ d, o = mk d := by
+theorem writeTo_mem (s : Server) (src : Nat) (found : List Nat) (mk : Nat → Out) (o : Out)
+    (h : o ∈ writeTo s src found mk) : o = .ub src ∨ ∃ d, o = mk d := by
   unfold writeTo at h
-  simp only [List.mem_map] at h
-  obtain ⟨d, _, rfl⟩ := h
-  exact ⟨d, rfl⟩
+  simp only [List.mem_append, List.mem_map] at h
+  rcases h with h | ⟨d, _, rfl⟩
+  · split at h
+    · simp at h; exact Or.inl h
+    · simp at h
+  · exact Or.inr ⟨d, rfl⟩
 
 theorem handleStanza_mem (cfg : Cfg) (s : Server) (src : Nat) (st : Stanza) (o : Out)
     (h : o ∈ handleStanza cfg s src st) :
@@ -439,18 +504,21 @@ theorem handleStanza_mem (cfg : Cfg) (s : Server) (src : Nat) (st : Stanza) (o :
   · split at h
     · split at h
       · split at h
-        · obtain ⟨d, rfl⟩ := writeTo_mem _ _ _ _ h
-          exact Or.inr (Or.inl ⟨d, _, _, rfl⟩)
+        · rcases writeTo_mem _ _ _ _ _ h with rfl | ⟨d, rfl⟩
+          · exact Or.inr (Or.inr rfl)
+          · exact Or.inr (Or.inl ⟨d, _, _, rfl⟩)
         · simp at h
       · simp at h
     · simp at h
   · split at h
-    · obtain ⟨d, rfl⟩ := writeTo_mem _ _ _ _ h
-      exact Or.inl ⟨d, rfl⟩
+    · rcases writeTo_mem _ _ _ _ _ h with rfl | ⟨d, rfl⟩
+      · exact Or.inr (Or.inr rfl)
+      · exact Or.inl ⟨d, rfl⟩
     · split at h
       · split at h
-        · obtain ⟨d, rfl⟩ := writeTo_mem _ _ _ _ h
-          exact Or.inr (Or.inl ⟨d, _, _, rfl⟩)
+        · rcases writeTo_mem _ _ _ _ _ h with rfl | ⟨d, rfl⟩
+          · exact Or.inr (Or.inr rfl)
+          · exact Or.inr (Or.inl ⟨d, _, _, rfl⟩)
         · simp at h
       · simp at h
 
@@ -463,21 +531,23 @@ theorem unregister_mem (s : Server) (c : Nat) (o : Out) (h : o ∈ (unregister s
   · simp at h; exact h
 
 theorem kickOld_mem (s0 : Server) (c : Nat) (jid : List Char) (o : Out) (h : o ∈ (kickOld s0 c jid).2) :
-    ∃ k, k ≠ c ∧ (o = .send k (.streamError .conflict) ∨ o = .send k .streamEnd ∨ o = .closed k ∨ ∃ j, o = .disconnected k j) := by
+    o = .ub c ∨ ∃ k, k ≠ c ∧ (o = .send k (.streamError .conflict) ∨ o = .send k .streamEnd ∨ o = .closed k ∨ ∃ j, o = .disconnected k j) := by
   unfold kickOld at h
   split at h
   · rename_i o' _
     split at h
     · rename_i hk
       simp only [List.mem_append, List.mem_cons, List.not_mem_nil, or_false] at h
-      refine ⟨o', hk.1, ?_⟩
+      refine Or.inr ⟨o', hk.1, ?_⟩
       rcases h with (h | h) | h
       · exact Or.inl h
       · exact Or.inr (Or.inl h)
       · rcases unregister_mem _ _ _ h with h | h
         · exact Or.inr (Or.inr (Or.inl h))
         · exact Or.inr (Or.inr (Or.inr ⟨_, h⟩))
-    · simp at h
+    · split at h
+      · simp at h; exact Or.inl h
+      · simp at h
   · simp at h
 
 theorem register_mem (s : Server) (c : Nat) (o : Out) (h : o ∈ (register s c).2) :
@@ -485,7 +555,7 @@ theorem register_mem (s : Server) (c : Nat) (o : Out) (h : o ∈ (register s c).
   unfold register at h
   simp only [List.mem_append, List.mem_cons, List.not_mem_nil, or_false] at h
   rcases h with h | h
-  · exact Or.inr (Or.inr (kickOld_mem _ _ _ _ h))
+  · exact Or.inr (kickOld_mem _ _ _ _ h)
   · exact Or.inl h
 
 theorem applyOut_needsAuth (cfg : Cfg) (s : Server) (c0 : Nat) (co : COut) (o : Out) (c : Nat)
@@ -570,7 +640,7 @@ theorem kickOld_conns (s0 : Server) (c : Nat) (jid : List Char) (i : Nat) :
         exact ⟨Or.inr rfl, fun h => absurd h hk.1⟩
       · simp only [hi, if_false]
         exact ⟨Or.inl rfl, fun _ => trivial⟩
-    · exact ⟨Or.inl rfl, fun _ => rfl⟩
+    · split <;> exact ⟨Or.inl rfl, fun _ => rfl⟩
   · exact ⟨Or.inl rfl, fun _ => rfl⟩
 
 theorem register_conns (s : Server) (c i : Nat) :
@@ -599,7 +669,7 @@ theorem applyOuts_conns (cfg : Cfg) (c0 : Nat) (i : Nat) : ∀ (couts : List COu
 /-- after a step, the acting connection is exactly what `connStep` made of it; any other one is unchanged or
 has been closed -/
 theorem step_conns (cfg : Cfg) (s : Server) (op : Nat × Ev) (i : Nat) :
-    (i = op.1 → (step cfg s op).1.conns i = (connStep cfg (freshRes s.gen) (s.conns op.1) op.2).conn) ∧
+    (i = op.1 → (step cfg s op).1.conns i = (connStepAny cfg (freshRes s.gen) (s.conns op.1) op.2).conn) ∧
     (i ≠ op.1 → Closes (s.conns i) ((step cfg s op).1.conns i)) := by
   unfold step
   simp only []
@@ -608,9 +678,9 @@ theorem step_conns (cfg : Cfg) (s : Server) (op : Nat × Ev) (i : Nat) :
     rw [(applyOuts_conns cfg op.1 i _ _).2 h]
     simp [setConn, h]
   · intro h
-    have := (applyOuts_conns cfg op.1 i (connStep cfg (freshRes s.gen) (s.conns op.1) op.2).outs
-      { setConn s op.1 (connStep cfg (freshRes s.gen) (s.conns op.1) op.2).conn with
-        gen := if (connStep cfg (freshRes s.gen) (s.conns op.1) op.2).used then s.gen + 1 else s.gen }).1
+    have := (applyOuts_conns cfg op.1 i (connStepAny cfg (freshRes s.gen) (s.conns op.1) op.2).outs
+      { setConn s op.1 (connStepAny cfg (freshRes s.gen) (s.conns op.1) op.2).conn with
+        gen := if (connStepAny cfg (freshRes s.gen) (s.conns op.1) op.2).used then s.gen + 1 else s.gen }).1
     simpa [setConn, h] using this
 
 
@@ -623,14 +693,14 @@ theorem authLog_init : AuthLog init [] := by
   intro c h; simp [init] at h
 
 theorem step_outs_authHead (cfg : Cfg) (s : Server) (op : Nat × Ev)
-    (h : AuthHead (connStep cfg (freshRes s.gen) (s.conns op.1) op.2)) :
+    (h : AuthHead (connStepAny cfg (freshRes s.gen) (s.conns op.1) op.2)) :
     ∃ j rest, (step cfg s op).2 = .authed op.1 j :: rest := by
   obtain ⟨j, tl, ho, _⟩ := h
   unfold step
   simp only [ho]
   obtain ⟨rest, hr⟩ := applyOuts_authed_head cfg
-    { setConn s op.1 (connStep cfg (freshRes s.gen) (s.conns op.1) op.2).conn with
-      gen := if (connStep cfg (freshRes s.gen) (s.conns op.1) op.2).used then s.gen + 1 else s.gen } op.1 j tl
+    { setConn s op.1 (connStepAny cfg (freshRes s.gen) (s.conns op.1) op.2).conn with
+      gen := if (connStepAny cfg (freshRes s.gen) (s.conns op.1) op.2).used then s.gen + 1 else s.gen } op.1 j tl
   exact ⟨j, rest, hr⟩
 
 theorem authLog_step (cfg : Cfg) (s : Server) (L : List Out) (op : Nat × Ev)
@@ -639,7 +709,7 @@ theorem authLog_step (cfg : Cfg) (s : Server) (L : List Out) (op : Nat × Ev)
   have hc := step_conns cfg s op c
   by_cases hcop : c = op.1
   · rw [hc.1 hcop] at hj
-    rcases shape_connStep cfg (freshRes s.gen) (s.conns op.1) op.2 with hq | ha | hx
+    rcases shape_connStepAny cfg (freshRes s.gen) (s.conns op.1) op.2 with hq | ha | hx
     · rw [hq.1] at hj
       obtain ⟨j, hm⟩ := hinv op.1 hj
       exact ⟨j, by rw [hcop]; simp [hm]⟩
@@ -661,7 +731,7 @@ theorem step_needsAuth (cfg : Cfg) (s : Server) (L : List Out) (op : Nat × Ev)
   have hx' := hx
   unfold step at hx'
   obtain ⟨hc, g, hg, hgg⟩ := applyOuts_needsAuth cfg op.1 x c hn _ _ hx'
-  rcases shape_connStep cfg (freshRes s.gen) (s.conns op.1) op.2 with hq | ha | hj
+  rcases shape_connStepAny cfg (freshRes s.gen) (s.conns op.1) op.2 with hq | ha | hj
   · exact absurd hgg (benign_not_guarded (hq.2 g hg))
   · obtain ⟨j, rest, hr⟩ := step_outs_authHead cfg s op ha
     rw [hr] at hsplit
@@ -1184,6 +1254,7 @@ theorem inv_connStep (fresh : List Char) (x : Conn) (ev : Ev) (h : ConnInv cfg A
       intro _
       unfold clientStanza
       split <;> exact h
+    | sameRead e => exact h
 
 end handlers4
 
@@ -1215,7 +1286,7 @@ theorem servInv_init (cfg : Cfg) : ServInv cfg [] init := by
   exact ConnInv.of_no_pending rfl (fun h => absurd rfl h) (fun s hs => by cases hs)
 
 theorem servInv_step (cfg : Cfg) (hist : List (Nat × Ev)) (s : Server) (op : Nat × Ev)
-    (hinv : ServInv cfg hist s) :
+    (hinv : ServInv cfg hist s) (hns : op.2.isSame = false) :
     ServInv cfg (hist ++ [op]) (step cfg s op).1 := by
   intro c
   have hmono : ConnInv cfg (GoodApproved cfg (hist ++ [op]) c) (Sent (hist ++ [op]) c) (s.conns c) :=
@@ -1225,6 +1296,7 @@ theorem servInv_step (cfg : Cfg) (hist : List (Nat × Ev)) (s : Server) (op : Na
   by_cases hcop : c = op.1
   · rw [hc.1 hcop]
     subst hcop
+    rw [connStepAny_eq _ _ _ _ hns]
     apply inv_connStep _ _ _ hmono
     · intro p hp
       exact ⟨op.2, by simp, hp⟩
@@ -1235,15 +1307,15 @@ theorem servInv_step (cfg : Cfg) (hist : List (Nat × Ev)) (s : Server) (op : Na
     · rw [h]; exact ConnInv.of_closed rfl hmono.jid_ok
 
 theorem servInv_run (cfg : Cfg) : ∀ (ops : List (Nat × Ev)) (hist : List (Nat × Ev)) (s : Server),
-    ServInv cfg hist s →
+    ServInv cfg hist s → NoSameRead ops →
     ServInv cfg (hist ++ ops) (run cfg s ops).1 := by
   intro ops
   induction ops with
-  | nil => intro hist s h; simpa [run] using h
+  | nil => intro hist s h _; simpa [run] using h
   | cons op ops ih =>
-    intro hist s h
-    have h1 := servInv_step cfg hist s op h
-    have h2 := ih (hist ++ [op]) _ h1
+    intro hist s h hns
+    have h1 := servInv_step cfg hist s op h (hns op (by simp))
+    have h2 := ih (hist ++ [op]) _ h1 (fun o ho => hns o (by simp [ho]))
     simpa [run, List.append_assoc] using h2
 
 /-! ### where routed / delivered / answered stanzas come from -/
@@ -1331,7 +1403,7 @@ theorem step_stanza_origin (cfg : Cfg) (s : Server) (op : Nat × Ev) (o : Out) (
       ((step cfg s op).1.conns src).jid = (s.conns src).jid := by
     intro st0 hce hsrc hsend
     rw [hce] at hco
-    have hem := connStep_emit cfg (freshRes s.gen) (s.conns op.1) op.2 st0 hco
+    have hem := connStepAny_emit cfg (freshRes s.gen) (s.conns op.1) op.2 st0 hco
     refine ⟨hsrc, st0, hsend, by rw [hsrc]; exact hem.1, ?_⟩
     rw [hsrc, (step_conns cfg s op op.1).1 rfl, hem.2]
   rcases ho with ⟨_, rfl, _⟩ | ⟨dst, rfl⟩ | ⟨dst, f, cond, rfl⟩
@@ -1534,6 +1606,7 @@ theorem closeOk_connStep (cfg : Cfg) (fresh : List Char) (x : Conn) (ev : Ev) : 
       apply closeOk_gate; apply closeOk_clientGate
       unfold clientStanza
       split <;> exact Or.inl rfl
+    | sameRead e => exact Or.inl rfl
 
 
 
@@ -1589,7 +1662,7 @@ theorem kickOld_othersOpen (s0 : Server) (c : Nat) (jid : List Char) (h : Others
         exact h e hin hne
       · intro hn e he
         exact hn e (dropEntries_mem _ o e he).1
-    · exact ⟨h, fun x => x⟩
+    · split <;> exact ⟨h, fun x => x⟩
   · exact ⟨h, fun x => x⟩
 
 theorem register_othersOpen (s : Server) (c : Nat) (h : OthersOpen c s) : OthersOpen c (register s c).1 := by
@@ -1645,18 +1718,20 @@ theorem applyOuts_noRef (cfg : Cfg) (c0 : Nat) : ∀ (couts : List COut) (s : Se
     · exact h2.1 (h1.2 hm.symm)
     · exact h2.2 hm
 
-theorem tablesOpen_step (cfg : Cfg) (s : Server) (op : Nat × Ev) (h : TablesOpen s) : TablesOpen (step cfg s op).1 := by
+theorem tablesOpen_step (cfg : Cfg) (s : Server) (op : Nat × Ev) (h : TablesOpen s) (hns : op.2.isSame = false) :
+    TablesOpen (step cfg s op).1 := by
   have hconn := (step_conns cfg s op op.1).1 rfl
   have hclose := closeOk_connStep cfg (freshRes s.gen) (s.conns op.1) op.2
+  rw [← connStepAny_eq _ _ _ _ hns] at hclose
   unfold step at hconn ⊢
   simp only [] at hconn ⊢
   -- the state handed to `applyOuts`
-  have hs1 : OthersOpen op.1 { setConn s op.1 (connStep cfg (freshRes s.gen) (s.conns op.1) op.2).conn with
-      gen := if (connStep cfg (freshRes s.gen) (s.conns op.1) op.2).used then s.gen + 1 else s.gen } := by
+  have hs1 : OthersOpen op.1 { setConn s op.1 (connStepAny cfg (freshRes s.gen) (s.conns op.1) op.2).conn with
+      gen := if (connStepAny cfg (freshRes s.gen) (s.conns op.1) op.2).used then s.gen + 1 else s.gen } := by
     intro e he hne
     simp only [setConn, hne, if_false]
     exact h e he
-  have hoo := applyOuts_othersOpen cfg op.1 (connStep cfg (freshRes s.gen) (s.conns op.1) op.2).outs _ hs1
+  have hoo := applyOuts_othersOpen cfg op.1 (connStepAny cfg (freshRes s.gen) (s.conns op.1) op.2).outs _ hs1
   intro e he
   by_cases hne : e.2 = op.1
   case neg => exact hoo e he hne
@@ -1668,24 +1743,27 @@ theorem tablesOpen_step (cfg : Cfg) (s : Server) (op : Nat × Ev) (h : TablesOpe
       | false => rfl
       | true =>
         exfalso
-        have hidle : (connStep cfg (freshRes s.gen) (s.conns op.1) op.2).outs = [] := by
-          unfold connStep; simp [hx, idle]
+        have hidle : (connStepAny cfg (freshRes s.gen) (s.conns op.1) op.2).outs = [] := by
+          rw [connStepAny_eq _ _ _ _ hns]; unfold connStep; simp [hx, idle]
         rw [hidle] at he
         simp only [applyOuts] at he
         have := h e he
         rw [hne, hx] at this
         cases this
     · exfalso
-      have hnr := (applyOuts_noRef cfg op.1 (connStep cfg (freshRes s.gen) (s.conns op.1) op.2).outs
-        { setConn s op.1 (connStep cfg (freshRes s.gen) (s.conns op.1) op.2).conn with
-          gen := if (connStep cfg (freshRes s.gen) (s.conns op.1) op.2).used then s.gen + 1 else s.gen } hnb).2 hcl
+      have hnr := (applyOuts_noRef cfg op.1 (connStepAny cfg (freshRes s.gen) (s.conns op.1) op.2).outs
+        { setConn s op.1 (connStepAny cfg (freshRes s.gen) (s.conns op.1) op.2).conn with
+          gen := if (connStepAny cfg (freshRes s.gen) (s.conns op.1) op.2).used then s.gen + 1 else s.gen } hnb).2 hcl
       exact hnr e he hne
 
-theorem tablesOpen_run (cfg : Cfg) : ∀ (ops : List (Nat × Ev)) (s : Server), TablesOpen s → TablesOpen (run cfg s ops).1 := by
+theorem tablesOpen_run (cfg : Cfg) : ∀ (ops : List (Nat × Ev)) (s : Server), TablesOpen s → NoSameRead ops →
+    TablesOpen (run cfg s ops).1 := by
   intro ops
   induction ops with
-  | nil => intro s h; exact h
-  | cons op ops ih => intro s h; exact ih _ (tablesOpen_step cfg s op h)
+  | nil => intro s h _; exact h
+  | cons op ops ih =>
+    intro s h hns
+    exact ih _ (tablesOpen_step cfg s op h (hns op (by simp))) (fun o ho => hns o (by simp [ho]))
 
 theorem tablesOpen_init : TablesOpen init := by
   intro e he; simp [init] at he
